@@ -84,6 +84,10 @@ CHECKS = {
                 technique="boundary-alphabet product + protocol-history enumeration (4-step anti-exfil machine run twice in every same/different combination, on 3 context kinds) + single-bit mutation enumeration, lock-step sign-to-contract reference model",
                 text="s2c_sign for boundary keys x messages (0, n-1, n, 2^256-1) x data is byte-compared with the model (signature and opening); verify_commit accepts exactly (sig, data, opening) and rejects every other datum in the alphabet and every single-bit flip of signature, datum and opening; the anti-exfil protocol host_commit -> signer_commit -> sign -> host_verify is run twice in every combination of same / different host randomness and message with the invariants of the statement (committed opening = opening of the signature, same randomness => same opening, host_verify = commit check AND ecdsa_verify on all mutated inputs), on fresh, randomised and replaced-compression-function contexts so that the two separately written nonce derivations must agree; opening codec over 33 x-values x every prefix byte.",
                 note="Production group only (sign-to-contract tweaks are dead in the small-group builds); cryptographically unreachable retries (tweak >= n, k+t = 0) are not driven."),
+    "C07": dict(level="fault_enumeration", design="§4 C07",
+                technique="deviation-bounded malformed-input enumeration (every 0- and 1-deviation input of each entry point) under ASan / UBSan / VERIFY with callback counters, allocation ledger and watchdog; parsed objects chained into every consumer of their type",
+                text="19 parsing / verification targets (public keys, x-only keys, strict and lax DER, compact / recoverable signatures, Schnorr signatures, MuSig pubnonce / aggnonce / partial signature, generators, commitments, range proofs incl. rewind and info, surjection proofs, whitelist signatures, adaptor signatures, half-aggregates incl. incremental aggregation, ElligatorSwift encodings, s2c openings, BP++ generator lists) receive every valid artefact made by the library's own provers under every single mutation of a finite alphabet (each bit flip, each truncation, extensions, each header byte over all 256 values, the 16-bit count over all values, every aligned 32-byte slot replaced by 9 boundary scalars / coordinates, constant strings of every length, header byte pairs), in exactly-sized malloc blocks; a sanitizer report, VERIFY_CHECK abort, callback, return value outside {0,1}, leaked allocation or hang is a violation. Found F2 (ecdsa_adaptor_recover on an s = 0 signature object).",
+                note="Multi-mutation inputs beyond the listed pairs are not explored; other arguments are well-formed; declared lengths always equal the buffer length."),
 }
 
 NOT_YET = "check not built yet in this round (work in progress; see DESIGN.md section 4 for the planned exploration)"
